@@ -2636,4 +2636,40 @@ example : c07n_metaSpan 0 [tk .word ['k']] [tk .word ['v']]
       c := [tk .ws [' '], tk .blockComment "[- n -]".toList, tk .ws [' ']], d := [tk .ws [' '], tk .blockComment "[- d -]".toList] } =
     ⟨9, 32⟩ := by decide
 
+/-! ### Arbitrary placement, a sixth construct: modifiers on a cookware item (wave 5) -/
+
+/-- **Recipe modifier / duplicate modifiers on a cookware item, anywhere in a step** (a further instance of the
+    schema `C07_planted_step`; COMPONENT_MODIFIERS).  `#@x{}`, `#&&x{}`: plain modifier tokens `ms`, a non-blank
+    name without alias separator, blank braces, standing after `A` and before `rest` (not a `(`) in a block `T`.
+    From every parser state at that position one iteration of the step loop consumes exactly the construct and
+    pushes EXACTLY: one `duplicate-modifier` (labelled with the span of the modifier tokens) per token that
+    repeats an earlier one; then `cookware-recipe-modifier` labelled with the first `@` among the modifiers
+    iff there is one (`recipeModEvs`, `C07_cookware_recipe_modifier`); then the cookware item, whose span is
+    the byte range of the construct. -/
+theorem C07_planted_cookware_modifiers (T A rest : List Tok) (cs : CharSpec) (e : Ext) (tm : Tok)
+    (ms nameT : List Tok) (tob : Tok) (Q : List Tok) (tcb : Tok)
+    (hT : T = A ++ (c07p_comp tm ms nameT tob Q tcb ++ rest)) (hw : WF T)
+    (sh : PlShape e .hash tm ms nameT tob Q tcb rest) (hs : SimpleMods ms)
+    (hQ : ∀ t ∈ Q, isPadK t = true)
+    (ha : e.has Gen.EXT_COMPONENT_ALIAS = false ∨ ∀ t ∈ nameT, t.kind ≠ .or)
+    (hname : (buildText (offAt T (A.length + 1 + ms.length)) nameT).isTextEmpty cs = false) :
+    PlPieceAt (α := α) T cs e A ⟨c07p_comp tm ms nameT tob Q tcb, fun evs =>
+      evs = List.replicate (foldMods Modifiers.empty ms).2
+          (.error ⟨.error, .parse, "duplicate-modifier", [tokensSpan ms]⟩) ++ recipeModEvs ms ++
+        [.cookware ⟨⟨simpleFlags ms (offAt T (A.length + 1)),
+          buildText (offAt T (A.length + 1 + ms.length)) nameT, none, none, none⟩,
+        ⟨offAt T A.length, offAt T (A.length + (c07p_comp tm ms nameT tob Q tcb).length)⟩⟩]⟩ :=
+  c07p_cookware_modifiers_piece T A rest cs e tm ms nameT tob Q tcb hT hw sh hs hQ ha hname
+
+/-! non-vacuity: `Use #@x{}.` under COMPONENT_MODIFIERS — the shape, the side conditions, the expected error -/
+example : PlShape ⟨Gen.EXT_COMPONENT_MODIFIERS⟩ .hash ⟨.hash, ['#'], 4⟩ [⟨.at, ['@'], 5⟩]
+    [⟨.word, ['x'], 6⟩] ⟨.openBrace, ['{'], 7⟩ [] ⟨.closeBrace, ['}'], 8⟩ [⟨.dot, ['.'], 9⟩] :=
+  ⟨rfl, Or.inr ⟨rfl, by decide, by intro x h; cases h; decide⟩, by decide, rfl, by decide, rfl,
+    by intro t h; cases h; decide⟩
+example : SimpleMods [⟨.at, ['@'], 5⟩] ∧ (foldMods Modifiers.empty [⟨.at, ['@'], 5⟩]).2 = 0 ∧
+    recipeModEvs (α := Rat) [⟨.at, ['@'], 5⟩] =
+      [.error ⟨.error, .parse, "cookware-recipe-modifier", [⟨5, 6⟩]⟩] ∧
+    (buildText 6 [⟨.word, ['x'], 6⟩]).isTextEmpty toyCharSpec = false :=
+  ⟨by unfold SimpleMods; decide, rfl, rfl, by decide⟩
+
 end Cook
